@@ -92,7 +92,7 @@ Print Assumptions Links.EventLoopsChain.chain_shutdown_is_handler.
 (* Intercept.handle_connect as a routing function *)
 Print Assumptions Links.EventLoopsConnect.handle_connect_is_route.
 (* disagreements *)
-Print Assumptions Links.EventLoopsIntercept.intercept_response_parse_differ.
-Print Assumptions Links.EventLoopsIntercept.intercept_pipeline_protocol_exception_differ.
-Print Assumptions Links.EventLoopsChain.chain_oserror_drain_differ.
+Print Assumptions Links.EventLoopsIntercept.intercept_response_parse_agree.
+Print Assumptions Links.EventLoopsIntercept.intercept_pipeline_protocol_exception_agree.
+Print Assumptions Links.EventLoopsChain.chain_oserror_is_handler.
 Print Assumptions Links.EventLoopsChain.firstrequest_hook_oserror_tears_reads.
